@@ -1,5 +1,6 @@
 """C19: delete_symbol removes every trace of the symbol, and only that."""
 import io
+import random
 import uuid as uuidlib
 
 import gtirb
@@ -60,7 +61,16 @@ def gen_case(rng, tier, index):
     dels = [[rng.randrange(ns), rng.random() < 0.6] for _ in range(ndel)]
     if rng.random() < 0.2:
         dels.append([dels[0][0], not dels[0][1]])
+    r2 = random.Random(f"c19-extra:{index}:{ns}:{ndel}")
+    for sd in syms:
+        # control flow that reaches an extern without any expression naming
+        # it (an indirect call the disassembler resolved): an edge to its
+        # proxy
+        sd["edge"] = sd["extern"] and r2.random() < 0.4
     return {"fmt": fmt, "syms": syms, "dels": dels,
+            # the retargeted symbol may be one that a symbol difference
+            # names (retargeting those is refused)
+            "retarget_any": r2.random() < 0.4,
             "extra_def": rng.random() < 0.5, "extra_need": rng.random() < 0.5,
             "driver": rng.choice(["ctx", "ctx", "passes"]),
             # the uses of one deleted symbol are first retargeted to a
@@ -114,6 +124,9 @@ def build(case):
             p = gtirb.ProxyBlock()
             m.proxies.add(p)
             s = gtirb.Symbol(sd["name"], payload=p)
+            if sd.get("edge") and isinstance(code, gtirb.CodeBlock):
+                ir.cfg.add(gtirb.Edge(code, p, gtirb.Edge.Label(
+                    gtirb.Edge.Type.Call, conditional=False, direct=False)))
         else:
             s = gtirb.Symbol(sd["name"], payload=code if i % 2 else data)
         s.module = m
@@ -234,15 +247,20 @@ def run_case(case):
     # retarget first?  (not for symbols in symbol-minus-symbol expressions:
     # retargeting those is documented as not implemented)
     ret = None
+    ret_addr = False
     if case.get("retarget"):
         in_addr = {i for ss in model["exprs"].values() if len(ss) > 1
                    for i in ss}
-        cand_i = [i for i in sorted(force) if i not in in_addr]
+        cand_i = [i for i in sorted(force)
+                  if i not in in_addr or case.get("retarget_any")]
         cand_j = [j for j in range(n) if j not in force]
         if cand_i and cand_j:
             ret = (cand_i[0], cand_j[0])
             i_, j_ = ret
-            model["exprs"] = {o: tuple(j_ if x == i_ else x for x in ss)
+            ret_addr = i_ in in_addr
+            # (a symbol difference is left as it is)
+            model["exprs"] = {o: tuple(j_ if x == i_ and len(ss) == 1
+                                       else x for x in ss)
                               for o, ss in model["exprs"].items()}
             model["cfi"] = [(a, b, j_ if x == i_ else x)
                             for a, b, x in model["cfi"]]
@@ -285,6 +303,11 @@ def run_case(case):
     except SymbolUsesRemainingError as x:
         exc = x
     except Exception as x:  # noqa
+        if ret_addr and isinstance(x, NotImplementedError):
+            # the documented refusal of the retarget request; nothing was
+            # deleted quietly
+            ctr["retarget_of_symbol_difference_refused"] = 1
+            return {"sig": None, "violations": viol, "counters": ctr}
         viol.append({"key": f"delete:raises-{type(x).__name__}",
                      "msg": repr(x)[:300]})
         return {"sig": None, "violations": viol, "counters": ctr}
